@@ -1314,6 +1314,11 @@ class Exec(Engine):
 
     def inline_call(self, p, args, kwargs, fr, node, c=None):
         st = fr.st
+        wrappers = [ast.unparse(d_) for d_ in getattr(p.node, "decorator_list", [])
+                    if ast.unparse(d_).split("(")[0] not in ("property", "staticmethod", "classmethod", "functools.wraps", "abc.abstractmethod", "abstractmethod")
+                    and not ast.unparse(d_).endswith((".setter", ".getter", ".deleter"))]
+        if wrappers:
+            raise Unsupported(f"call of a function wrapped by {wrappers}: its body is not what runs")
         env = self.bind_args(p, args, kwargs, fr)
         saved = st.env
         if p.env is not None:
